@@ -234,8 +234,8 @@ def check_loader(case, stats: Stats) -> None:
 def self_synonym_records(draw, tier="quick"):
     p = draw(st.text(S.UNICODE, max_size=3))
     u = draw(st.text(S.UNICODE, max_size=4))
-    ps = draw(st.lists(st.text(st.sampled_from("ab"), max_size=2), max_size=2))
-    us = draw(st.lists(st.text(st.sampled_from("uv/"), max_size=2), max_size=2))
+    ps = draw(st.lists(S.txt("ab", max_size=2), max_size=2))
+    us = draw(st.lists(S.txt("uv/", max_size=2), max_size=2))
     side = draw(st.sampled_from(["prefix", "uri", "both", "none"]))
     if side in ("prefix", "both"):
         ps.insert(draw(st.integers(0, len(ps))), p)
